@@ -108,7 +108,10 @@ func newRing(endpoints *resolver.EndpointMap[*endpointState], minRingSize, maxRi
 		// per-endpoint, these entries hash to the same value across address
 		// updates.
 		idx := 0
-		for currentHashes < targetHashes {
+		// The running sum of scale*weight can exceed scale by a rounding error
+		// (e.g. weights 2 and 190 with max ring size 11 sum to 11.000000000000002),
+		// which must not add an entry beyond the ring size.
+		for currentHashes < targetHashes && currentHashes < ringSize {
 			h := xxhash.Sum64String(epInfo.hashKey + "_" + strconv.Itoa(idx))
 			items = append(items, &ringEntry{hash: h, hashKey: epInfo.hashKey, weight: epInfo.originalWeight})
 			idx++
